@@ -25,12 +25,18 @@ def symlinks_for(ws: dict) -> list:
     return [["l%d" % i, "w/d%d" % i] for i in range(len(ws["roots"]))]
 
 
+UNORDERED_KINDS = ["list", "list", "list", "tuple", "set", "frozenset", "gen", "iter", "keys", "deque"]
+ORDERED_KINDS = ["list", "list", "list", "tuple", "gen", "iter", "keys", "deque"]
+
+
 def rn_op(rng: random.Random, uni: Universe, ri: int, look: list[int], **kw) -> dict:
     nroots = len(uni.roots)
     lk = [dir_arg(rng, uni, x) for x in look]
     rng.shuffle(lk)
     op = {"op": "rn", "root": dir_arg(rng, uni, ri), "lookups": lk, "key": rng.randrange(1 << 30),
           "cwd": rng.choice(["", "w", uni.roots[rng.randrange(nroots)]["dir"]])}
+    if rng.random() < 0.3:
+        op["lk_kind"] = rng.choice(UNORDERED_KINDS)
     op.update(kw)
     return op
 
@@ -51,6 +57,12 @@ def rf_op(rng: random.Random, uni: Universe, targets: list[str], look: list[int]
     rng.shuffle(files)
     rng.shuffle(lk)
     op = {"op": "rf", "files": files, "roots": roots, "lookups": lk, "key": rng.randrange(1 << 30), "cwd": rng.choice(["", "w"])}
+    if rng.random() < 0.3:
+        op["lk_kind"] = rng.choice(UNORDERED_KINDS)
+    if rng.random() < 0.3:
+        op["files_kind"] = rng.choice(UNORDERED_KINDS)
+    if rng.random() < 0.3:
+        op["roots_kind"] = rng.choice(ORDERED_KINDS)
     op.update(kw)
     return op
 
